@@ -77,6 +77,11 @@ def plan(tier, seed):
     vecs = [core[0], (0, 1, 2, 1, 1)] if tier == "quick" else [core[0], core[2], core[4], (0, 1, 2, 1, 1)]
     out += L.split_plan("e2e-ordered:3x3", pp, omenu, 40, {"mode": "e2e", "algo": "ext_spfs", "costs": vecs})
     out += L.split_plan("e2e-unordered:3x3", pp, umenu, 40, {"mode": "e2e", "algo": "superdtl", "costs": vecs})
+    # one family, unusual prices: a speciation dearer than a transfer (an "ideal cost" of n-1 speciations is then no lower
+    # bound), and duplications / transfers forbidden (some refinements are infeasible, others are not)
+    odd = [(2, 2, 1, 1, 1), (0, INF, INF, 1, 1), (0, INF, 1, 1, 1)]
+    out += L.split_plan("e2e-ordered:3x3x1/odd prices", pp, [("a",)], 40, {"mode": "e2e", "algo": "ext_spfs", "costs": odd})
+    out += L.split_plan("e2e-unordered:3x3x1/odd prices", pp, [("a",)], 40, {"mode": "e2e", "algo": "superdtl", "costs": odd})
     # operation histories: ONE multifurcating input object per shape pair, solved again and again after in-place edits of
     # its trees (ancestor names, a colour) and of its leaf assignment / syntenies
     for osh, ssh in pp:
